@@ -340,6 +340,7 @@ func c07Q2(r *Run, rep *core.Report, mm *core.MapModel, f *ssa.Function, app ssa
 		index  ssa.Value
 	}
 	var srcs []src
+	var slotAddr ssa.Instruction
 	var visit func(v ssa.Value)
 	visit = func(v ssa.Value) {
 		for _, ref := range *v.Referrers() {
@@ -350,6 +351,17 @@ func c07Q2(r *Run, rep *core.Report, mm *core.MapModel, f *ssa.Function, app ssa
 				visit(x)
 			case *ssa.Store:
 				if x.Addr == v {
+					// the address of a slot instead of its content: the word is read later, outside the lock
+					switch a := core.StripConv(x.Val).(type) {
+					case *ssa.IndexAddr:
+						if isBucketOwner(r, core.Addr(a).Owner) {
+							slotAddr = x
+						}
+					case *ssa.FieldAddr:
+						if isBucketOwner(r, core.Addr(a).Owner) {
+							slotAddr = x
+						}
+					}
 					if ld, isLd := core.StripConv(x.Val).(*ssa.UnOp); isLd && ld.Op == token.MUL {
 						if ia, isIA := ld.X.(*ssa.IndexAddr); isIA && isBucketOwner(r, core.Addr(ia).Owner) {
 							srcs = append(srcs, src{bucketOfAddr(ia), ia.Index})
@@ -364,6 +376,10 @@ func c07Q2(r *Run, rep *core.Report, mm *core.MapModel, f *ssa.Function, app ssa
 		}
 	}
 	visit(arr)
+	if slotAddr != nil {
+		rep.Fail("C07.Q2", fn(f)+" collects slot contents, not slot addresses", r.P.InstrPos(slotAddr), "the entry collected under the bucket lock holds the address of a bucket slot instead of the pointer read from it: the slot is read again after the lock is released, when it may belong to another key - the visitor would see a key with another key's value")
+		return
+	}
 	if len(srcs) < 2 {
 		return // single-pointer layout: nothing to pair
 	}
